@@ -285,6 +285,10 @@ def vectors(run):
         crit = rec['crit']
         f = criterion_callable(crit)
         V.append(('_sum_if', (col, f, target)))
+        V.append(('_sum_if', (col, f, [[1], [True], [2.5]])))            # truth values, texts, blanks among the cells to be summed
+        V.append(('_sum_if', (col, f, [[False], ['7'], [E()]])))
+        V.append(('_sumifs', ([[1], [True], [2.5]], col, f)))
+        V.append(('_averageifs', ([[4], [True], [False]], col, f)))
         V.append(('_sum_if', (col, f, col)))
         V.append(('_sumifs', (target, col, f)))
         V.append(('_countifs', (col, f)))
